@@ -200,7 +200,7 @@ def split_params(fid):
 
 
 def is_out_type(t):
-    t = t.strip()
+    t = t.replace('__restrict', '').strip()      # memcpy(void *__restrict, ...)
     if t.endswith('&&'):
         return False
     if not (t.endswith('*') or t.endswith('&')):
@@ -787,7 +787,14 @@ class Analysis:
                         l = ('e', l, '*')
                     outs.append((i, l))
         for i, l in outs:
-            val = T.mk('out', fname, i, *args)
+            used = args
+            if fname in ('memcpy', 'memmove', 'memset') and i == 0 and len(argexprs) == 3:
+                # the whole destination array is overwritten: its new contents do not depend on the old ones
+                at = argexprs[0].get('t', '') if isinstance(argexprs[0], dict) else ''
+                m_ = re.search(r'\[(\d+)\]$', at)
+                if m_ and T.is_int(args[2], int(m_.group(1))):
+                    used = args[1:]
+            val = T.mk('out', fname, i, *used)
             self.write(l, val, st)
             self.event(nid, ('write', l, val, e.get('l', 0)))
 
